@@ -21,9 +21,12 @@ TRUSTED = ["Coq 8.16.1 kernel, vm_compute for the correspondence evaluation",
            "FunctionalExtensionality.functional_extensionality_dep, Classical_Prop.classic (all Coq stdlib Reals)",
            "tools/symtrace.py tracing translator + numpy shim (re-validated numerically each run)",
            "coq/corr/K_C12.v agreement relation (relative tolerance 1e-9: entrywise for the rational matrices, relative "
-           "to the largest entry for the camera/canvas matrices)",
+           "to the row/column scale for the 3x3 block and to the input magnitude for the translation column of the camera/canvas matrices)",
            "NumPy, vg"]
 CASE_IMPORTS = [("PW.model", "M_viewing")]
+# theorems of props/C12.v that hold by the definition of the model (their content is carried by the traced lemmas
+# T_canvas_compose / T_canvas_inv_compose / T_canvas_stages / T_canvas_inv_stages)
+DEFINITIONAL = ["C12_canvas_is_three_stages"]
 ASSUMPTIONS = ["theorems are about exact real arithmetic; binary64 rounding is covered only by the tolerance of the "
                "correspondence check on sampled inputs",
                "the canvas matrix uses the float defaults near=0.1, far=2000: the traced z entries are the binary64 "
@@ -31,7 +34,7 @@ ASSUMPTIONS = ["theorems are about exact real arithmetic; binary64 rounding is c
                "inputs that make the code divide by zero are outside the property; the model mirrors them as "
                "ZeroDivisionError (Python floats) / NaN marker (array division) and the correspondence samples them"]
 
-_IMPORTS = [("PW.model", "M_viewing"), ("PW.proofs", "P_vec"), ("PW.proofs", "P_mat"), ("PW.proofs", "P_viewing")]
+_IMPORTS = [("PW.model", "M_viewing"), ("PW.model", "M_viewing_spec"), ("PW.proofs", "P_vec"), ("PW.proofs", "P_mat"), ("PW.proofs", "P_viewing")]
 
 # generic, shape-independent tie script: unfold both sides completely, compare entry by entry.
 _UNF = ("cbv [w2v_mat w2v_rot3 w2v_up w2v_left w2v_look basis_y ortho_mat ortho_mat_c ortho_zscale ortho_ztrans viewport_mat "
@@ -297,6 +300,22 @@ def _camera(rng, tier, up_fixed=None):
     return pos, target, up
 
 
+def _near_parallel_camera(rng, tier):
+    """up almost (never exactly) parallel to the viewing direction: angle about 2^-16 .. 2^-6; everything dyadic"""
+    while True:
+        look, perp = grid_vec(rng), grid_vec(rng)
+        if any(_cross(look, perp)):
+            break
+    eps = 2.0 ** -rng.randint(6, 16)
+    k = rng.choice([1.0, -1.0, 2.0, 0.5])
+    up = [k * a + eps * b for a, b in zip(look, perp)]
+    sp = _scale(rng, tier)
+    sl = sp * 2.0 ** rng.randint(-4, 4)
+    pos = [x * sp for x in grid_vec(rng)]
+    su = 2.0 ** rng.randint(-6, 6)
+    return pos, [a + b * sl for a, b in zip(pos, look)], [x * su for x in up]
+
+
 def _axis(rng, k=None):
     v = [0.0, 0.0, 0.0]
     v[rng.randrange(3) if k is None else k] = rng.choice([1.0, -1.0, 2.0, -0.5, 3.0])
@@ -311,7 +330,10 @@ def gen_cases(rng, n, tier):
             cases.append(_int_case(rng, "w2v" if u < 0.3 else "ortho" if u < 0.5 else "viewport" if u < 0.7 else "canvas"))
             continue
         if u < 0.3:
-            if b < 0.76:
+            if b < 0.12:
+                pos, target, up = _near_parallel_camera(rng, tier)
+                cases.append({"kind": "w2v_nearparallel", "position": pos, "target": target, "up": up})
+            elif b < 0.76:
                 pos, target, up = _camera(rng, tier)
                 cases.append({"kind": "w2v", "position": pos, "target": target, "up": up})
             elif b < 0.88:  # axis-aligned camera, up exactly perpendicular
@@ -528,7 +550,8 @@ def _apply(m, p, w=1):
 
 
 def _near(x, want, mag):
-    return abs(x - want) <= TOL * max(1, abs(want), mag)
+    # relative to the size of the terms that were added up (no absolute floor: tiny scenes are judged as strictly as big ones)
+    return abs(x - want) <= TOL * max(abs(want), mag)
 
 
 def _inverse_clause(f, i, name):
@@ -587,8 +610,12 @@ def oracle(c, o):
             return "world_to_view does not send the target onto the z axis: %s" % [float(x) for x in img]
         if img[2] <= 0:
             return "world_to_view sends the target to negative z: %s" % float(img[2])
-        if abs(img[2] ** 2 - d2) > 4 * TOL * max(d2, mag[2] ** 2):
-            return "target is not at its true distance: z=%s, distance^2=%s" % (float(img[2]), float(d2))
+        # the true-distance clause is judged on R (t - p): no cancellation against |position|, tolerance relative to the distance
+        rel, rmag = _apply(f, [a - b for a, b in zip(t, p)], 0)
+        if abs(rel[2] ** 2 - d2) > 4 * TOL * d2 or rel[2] <= 0:
+            return "target is not at its true distance: R(t-p) has z=%s, |t-p|^2=%s" % (float(rel[2]), float(d2))
+        if rel[0] ** 2 + rel[1] ** 2 > TOL * TOL * d2:
+            return "R(t-p) is not on the z axis: %s" % [float(x) for x in rel]
         img, mag = _apply(f, u, 0)
         if not _near(img[0], 0, mag[0]) or abs(img[0]) > TOL * sum(abs(x) for x in u):
             return "up is not mapped into the y-z plane: x=%s" % float(img[0])
